@@ -593,6 +593,7 @@ def parse_smithy(repo):
         ops[name] = {"method": http["method"], "uri": uri, "kind": kind, "code": http.get("code", 200),
                      "lits": lits, "literal_path": literal_path, "labels": labels,
                      "input_name": v["input"]["target"].split("#")[1] if "input" in v else None,
+                     "output_name": v["output"]["target"].split("#")[1] if "output" in v else None,
                      "inputs": members(inp, True), "outputs": members(outp, False)}
     return ops, shapes
 
@@ -796,6 +797,7 @@ def emit(repo, verif_root):
     write_if_changed(os.path.join(verif_root, "lean/S3V/Gen/Route.lean"), "\n".join(L) + "\n")
 
     emit_bindings(verif_root, ops, smithy, op_names, consts)
+    emit_payloads(repo, verif_root, ops, smithy, shapes, op_names)
     emit_rust(repo, verif_root, ops, smithy, op_names, trait_methods, shapes, hooks)
     return {"ops": len(op_names), "arms": len(arms), "rules": sum(len(a["rules"]) for a in arms.values()),
             "qkeys": len(qkeys), "unexposed": unexposed}
@@ -932,6 +934,159 @@ def emit_bindings(verif_root, ops, smithy, op_names, consts):
     L.append("")
     L.append("end S3V.Gen")
     write_if_changed(os.path.join(verif_root, "lean/S3V/Gen/Bindings.lean"), "\n".join(L) + "\n")
+
+
+def emit_payloads(repo, verif_root, ops, smithy, shapes, op_names):
+    """Gen/Payloads.lean: per operation what the generated code does with the request / response BODY (which helper,
+    instantiated at which Rust type) and what the Smithy model binds to the body (httpPayload member: target shape, root
+    element name; or the structure itself when it has body members). The type names are constructors of
+    `S3V.XmlGen.Ty` (translate/xml_tables.py): a payload type without an XML impl does not compile."""
+    NS = "com.amazonaws.s3#"
+    svc_ns = None
+    for k, v in shapes.items():
+        if v["type"] == "service":
+            svc_ns = v.get("traits", {}).get("smithy.api#xmlNamespace", {}).get("uri")
+    if not svc_ns:
+        raise Unrecognised("data/s3.json: the service has no xmlNamespace trait")
+    out_fields = parse_struct_fields(repo, sorted({ops[o]["output_type"] for o in op_names}))
+
+    def row(member, body):
+        return f"⟨{lean_str_bytes(norm_member(member))}, {body}⟩"
+
+    def impl_in(o):
+        rows = []
+        for x in ops[o]["inputs"]:
+            if x["loc"] != "payload":
+                continue
+            h, ty = x["helper"], x.get("ty")
+            if ty is None:
+                raise Unrecognised(f"{o}::deserialize_http: body member {x['member']} has no type annotation")
+            if h == "take_xml_body":
+                if not re.fullmatch(r"\w+", ty):
+                    raise Unrecognised(f"{o}::deserialize_http: take_xml_body into `{ty}`")
+                rows.append(row(x["member"], f".xml .{ty} false"))
+            elif h == "take_opt_xml_body":
+                m = re.fullmatch(r"Option<(\w+)>", ty)
+                if not m:
+                    raise Unrecognised(f"{o}::deserialize_http: take_opt_xml_body into `{ty}`")
+                rows.append(row(x["member"], f".xml .{m.group(1)} true"))
+            elif h in ("take_string_body", "take_opt_string_body"):
+                rows.append(row(x["member"], f".text {str(h == 'take_opt_string_body').lower()}"))
+            elif h == "take_stream_body":
+                if ty != "Option<StreamingBlob>":
+                    raise Unrecognised(f"{o}::deserialize_http: take_stream_body into `{ty}`")
+                rows.append(row(x["member"], ".stream"))
+            else:
+                raise Unrecognised(f"{o}::deserialize_http: body helper {h}")
+        return rows
+
+    def impl_out(o):
+        rows = []
+        oty = ops[o]["output_type"]
+        ftypes = dict(out_fields[oty])
+        for x in ops[o]["outputs"]:
+            h = x["helper"]
+            if x["loc"] == "body-self":
+                rows.append(row("", f".xmlSelf .{oty} {str(h == 'set_xml_body').lower()}"))
+            elif x["loc"] == "payload":
+                fty = ftypes.get(x["member"])
+                if fty is None:
+                    raise Unrecognised(f"{o}::serialize_http: member {x['member']} is not a field of {oty}")
+                m = re.fullmatch(r"Option<(\w+)>", fty)
+                if not m:
+                    raise Unrecognised(f"{o}::serialize_http: body member {x['member']} of type `{fty}` under `if let Some`")
+                if h == "set_xml_body":
+                    rows.append(row(x["member"], f".xml .{m.group(1)} true"))
+                elif h == "set_stream_body" and m.group(1) == "StreamingBlob":
+                    rows.append(row(x["member"], ".stream"))
+                elif h == "set_event_stream_body":
+                    rows.append(row(x["member"], ".eventStream"))
+                elif h == "body_from_string":
+                    rows.append(row(x["member"], ".text true"))
+                else:
+                    raise Unrecognised(f"{o}::serialize_http: body helper {h} on `{fty}`")
+        return rows
+
+    def smithy_side(o, role):
+        s = smithy[o]
+        members = s["inputs"] if role == "input" else s["outputs"]
+        payload = [m for m in members if m["loc"] == "payload"]
+        body = [m for m in members if m["loc"] == "payload-member"]
+        if len(payload) > 1 or (payload and body):
+            raise Unrecognised(f"smithy: {o} {role}: more than one httpPayload member, or httpPayload next to body members")
+        rows = []
+        for m in payload:
+            tsh = shapes.get(NS + m["target"])
+            if tsh is None:
+                raise Unrecognised(f"smithy: {o} {role}: payload target {m['target']} not found")
+            tt = tsh.get("traits", {})
+            streaming = "smithy.api#streaming" in tt
+            if tsh["type"] in ("structure", "union") and not streaming:
+                root = m["xmlname"] or tt.get("smithy.api#xmlName") or m["target"]
+                rows.append(row(m["snake"], f".xml .{m['target']} {lean_str_bytes(root)} {str(bool(m['required'])).lower()}"))
+            elif tsh["type"] == "union" and streaming:
+                rows.append(row(m["snake"], ".eventStream"))
+            elif tsh["type"] == "blob":
+                rows.append(row(m["snake"], f".blob {str(streaming).lower()}"))
+            elif tsh["type"] == "string":
+                rows.append(row(m["snake"], f".text {str(bool(m['required'])).lower()}"))
+            else:
+                raise Unrecognised(f"smithy: {o} {role}: payload target {m['target']} of type {tsh['type']}")
+        if body:
+            # REST-XML: the members without an http trait form the XML body of the structure itself; the root element is
+            # the structure's xmlName, else its shape name. The Rust type that carries them: codegen (dto.rs) names the
+            # output struct `<Op>Output`; of an input it splits the body members off into a struct named like the Smithy
+            # input shape, carried as the one member `request`
+            sname = s["input_name"] if role == "input" else s["output_name"]
+            ssh = shapes[NS + sname]
+            root = ssh.get("traits", {}).get("smithy.api#xmlName") or sname
+            ty = sname if role == "input" else o + "Output"
+            rows.append(row("request" if role == "input" else "", f".xmlSelf .{ty} {lean_str_bytes(root)}"))
+        return rows
+
+    L = []
+    L.append("/- GENERATED by translate/ops_tables.py — per operation, what the generated code does with the request / response")
+    L.append("   body (ops/generated.rs, dto/generated.rs) and what the Smithy model (data/s3.json) binds to it. Regenerated on")
+    L.append("   every run; do not edit. -/")
+    L.append("import S3V.Gen.Bindings")
+    L.append("import S3V.Gen.XmlNames")
+    L.append("namespace S3V.Gen")
+    L.append("open S3V.XmlGen")
+    L.append("")
+    L.append("/-- the body statement of a generated `deserialize_http` / `serialize_http`:")
+    L.append("    `xml T false` = `take_xml_body::<T>`, `xml T true` = `take_opt_xml_body::<T>` / `if let Some(ref val) = x.m { set_xml_body(val) }`;")
+    L.append("    `xmlSelf T decl` = `set_xml_body(&x)` (`decl` = true) / `set_xml_body_no_decl(&x)` with `x : T` the output itself;")
+    L.append("    `text opt` = `take_string_body` / `take_opt_string_body` / `res.body = Body::from(val)`;")
+    L.append("    `stream` = `take_stream_body` / `set_stream_body`; `eventStream` = `set_event_stream_body` -/")
+    L.append("inductive BodyImpl where\n  | xml (ty : Ty) (optional : Bool)\n  | xmlSelf (ty : Ty) (decl : Bool)\n  | text (optional : Bool)\n  | stream\n  | eventStream\n  deriving DecidableEq, Repr")
+    L.append("structure BodyRow where\n  member : List UInt8\n  body : BodyImpl\n  deriving DecidableEq, Repr")
+    L.append("")
+    L.append("/-- what the Smithy model binds to the body: an `httpPayload` member by the type of its target (structure / union:")
+    L.append("    the Rust type of the same name, the root element name restXml prescribes — member `xmlName`, else the target's")
+    L.append("    `xmlName`, else the target's shape name —, `required`), or the structure itself when it has body members")
+    L.append("    (`xmlSelf`: root = the structure's `xmlName`, else its shape name) -/")
+    L.append("inductive BodySmithy where\n  | xml (ty : Ty) (root : List UInt8) (required : Bool)\n  | xmlSelf (ty : Ty) (root : List UInt8)\n  | text (required : Bool)\n  | blob (streaming : Bool)\n  | eventStream\n  deriving DecidableEq, Repr")
+    L.append("structure SmithyBodyRow where\n  member : List UInt8\n  body : BodySmithy\n  deriving DecidableEq, Repr")
+    L.append("")
+    for nm, ty, fn in (("implInBody", "BodyRow", impl_in), ("implOutBody", "BodyRow", impl_out),
+                       ("smithyInBody", "SmithyBodyRow", lambda o: smithy_side(o, "input")),
+                       ("smithyOutBody", "SmithyBodyRow", lambda o: smithy_side(o, "output"))):
+        L.append(f"def {nm} : Op → List {ty}")
+        n_empty = 0
+        for o in op_names:
+            rows = fn(o)
+            if rows:
+                L.append(f"  | .{o} => [" + ", ".join(rows) + "]")
+            else:
+                n_empty += 1
+        if n_empty:
+            L.append("  | _ => []")
+        L.append("")
+    L.append("/-- the `xmlNamespace` of the service shape -/")
+    L.append(f"def smithyServiceNs : List UInt8 := {lean_str_bytes(svc_ns)}")
+    L.append("")
+    L.append("end S3V.Gen")
+    write_if_changed(os.path.join(verif_root, "lean/S3V/Gen/Payloads.lean"), "\n".join(L) + "\n")
 
 
 def emit_rust(repo, verif_root, ops, smithy, op_names, trait_methods, shapes, hooks):
